@@ -4,13 +4,14 @@
    pm_closure is the z-closure of get_pm_integrand as a function of its captured coefficients (As, Ai, Bs, Bi, Cs, Ci, Ds, Di, mx, my,
    m, n, hh, A5, A7, ee, ff); the integrand is that closure applied to the generated coefficients (first theorem, by conversion).
    All theorems below are PARTIAL with respect to the property text in one respect, stated once: they establish the exact
-   plane-wave (zero-diffraction) limit and the quadrature error; the bound "<= 1e-3 for every waist >= 2 mm and L <= 20 mm" on the
-   diffraction corrections (relative size L / (k W^2)) is NOT proved — it is validated on the Rust code over the property's box by
-   the S5 oracle of props/c05.py. *)
+   plane-wave (zero-diffraction) form, that it is the limit of the real integrand for large waists (C05_waist_limit), and the
+   quadrature error; the RATE of that convergence — the bound "<= 1e-3 for every waist >= 2 mm and L <= 20 mm" on the diffraction
+   corrections (relative size L / (k W^2)) — is NOT proved: it is validated on the Rust code over the property's box by the S5 oracle
+   of props/c05.py. *)
 From Coq Require Import Reals.
 From Coquelicot Require Import Coquelicot.
 From SpdVerif Require Import Base.Rx Base.CxPM Model.PMParams Model.PMLimit Gen.PMIntegrand Gen.PMSimpson Proofs.C06_algebra Proofs.C06_swap
-  Proofs.C06_defined Proofs.C05_closure Proofs.C05_limit Proofs.C05_sinc Proofs.C05_simpson_tac Proofs.C05_simpson.
+  Proofs.C06_defined Proofs.C05_closure Proofs.C05_limit Proofs.C05_sinc Proofs.C05_simpson_tac Proofs.C05_simpson Proofs.C05_waistlimit.
 Local Open Scope R_scope.
 
 Theorem C05_integrand_is_closure : forall p z, pm_integrand p z = pm_closure_of p z.
@@ -67,6 +68,24 @@ Theorem C05_zero_diffraction_modulus_partial : forall apod wx wy ss si nn psi_h 
                    0 0 0 0 (RtoC (- wx / 2)) (RtoC (- wy / 2)) 0 nn (0, psi_h) (RtoC 0) (RtoC 0) (RtoC 0) ee ff z) =
   Rabs (apod z) * (4 / sqrt (Sig ss si wx * Sig ss si wy)) * exp (- (nn * nn * (ss + si) / Sig ss si wy) * ((1 + z) * (1 + z))).
 Proof. exact closure_zero_diffraction_modulus. Qed.
+
+(* the zero-diffraction closed form IS the large-waist limit of the real integrand: for every collinear setup, with all three waists
+   multiplied by s (every diffraction coefficient DEL2s, DEL2i, Cs, Ci, Ds, Di, m and the walk-off n kept at their actual values) and
+   the integrand rescaled by s^4,  s^4 integrand_s(z) -> apod(z) (4 / sqrt(Sigma_x Sigma_y)) exp(i (psi0 + ff z))  as s -> infinity.
+   (Qualitative: the RATE — the 1e-3 at 2 mm of the property text — is validated by the S5 oracle, not proved.) *)
+Theorem C05_waist_limit : forall p z,
+  pm_collinear p -> 0 < pm_Ws_SQ p -> 0 < pm_Wi_SQ p ->
+  filterlim (fun s => Cmult (RtoC ((s * s) * (s * s))) (pm_integrand (pm_scale_waists s p) z)) (Rbar_locally p_infty)
+            (locally (plane_wave_value (p_apod p) (pm_Wx_SQ p) (pm_Wy_SQ p) (pm_Ws_SQ p) (pm_Wi_SQ p)
+                                       (pm_ks_f p * p_z0s p + pm_ki_f p * p_z0i p) (pm_ee p) (pm_ff p) z)).
+Proof. exact integrand_waist_limit. Qed.
+
+(* the same for the closure with arbitrary coefficient values *)
+Theorem C05_closure_waist_limit : forall apod wx wy ss si dls dli cs ci ds di m nn psi_h ee ff z,
+  0 < ss -> 0 < si -> 0 <= wx -> 0 <= wy ->
+  filterlim (scaled apod wx wy ss si dls dli cs ci ds di m nn psi_h ee ff z) (Rbar_locally p_infty)
+            (locally (plane_wave_value apod wx wy ss si psi_h ee ff z)).
+Proof. exact waist_limit. Qed.
 
 (* clause 3: the sinc integral *)
 Theorem C05_sinc : forall psi ff,
@@ -132,6 +151,8 @@ Print Assumptions C05_collinear_coefficients.
 Print Assumptions C05_delta_k_bookkeeping.
 Print Assumptions C05_zero_diffraction_partial.
 Print Assumptions C05_zero_diffraction_modulus_partial.
+Print Assumptions C05_waist_limit.
+Print Assumptions C05_closure_waist_limit.
 Print Assumptions C05_sinc.
 Print Assumptions C05_plane_wave_limit_partial.
 Print Assumptions C05_walkoff_peak_partial.
